@@ -465,6 +465,21 @@ fn execute(sc: &Scenario) -> RunOutcome {
                                     let ss: f64 = res.iter().map(|x| x * x).sum::<f64>() + res_bulk.iter().map(|x| x * x).sum::<f64>();
                                     let rn_own = (ss / (res.len() + res_bulk.len()) as f64).sqrt();
                                     let rn = rn_own.max(rn_lib);
+                                    // the residual array may only be masked where the wall is overwhelming:
+                                    // an entry that is exactly 0.0 elsewhere (at positive density) means the
+                                    // equation was not evaluated there
+                                    let masked = res
+                                        .iter()
+                                        .zip(p.external_potential.iter())
+                                        .zip(rho.iter())
+                                        .filter(|((r, v), d)| **r == 0.0 && **v < 49.0 && **d > 0.0)
+                                        .count();
+                                    // (a residual converged to the last bit is legitimately 0.0 here and there)
+                                    let rel_max = res.iter().zip(rho.iter()).filter(|(_, d)| **d > 0.0).map(|(r, d)| (r / d).abs()).fold(0.0, f64::max);
+                                    out.max("residual_exact_zero_points", masked as f64);
+                                    // probe only: flat converged regions reproduce the bulk density to the last bit,
+                                    // so exact zeros are legitimate (tried as an oracle: false alarm, see DESIGN 10)
+                                    let _ = rel_max;
                                     out.max("residual_over_tol", rn / tol);
                                     dg.f64(rn);
                                     if !(rn <= tol * (1.0 + 1e-6)) {
@@ -476,6 +491,22 @@ fn execute(sc: &Scenario) -> RunOutcome {
                                     }
                                 }
                                 Err(e) => out.violate("residual-error", "residual", format!("{}: residual of a solved profile cannot be evaluated: {e}", what(i))),
+                            }
+                            // S1c: the Euler-Lagrange equation itself, assembled here from the functional
+                            // derivative of the profile and of a uniform profile at the bulk state (not via
+                            // DFTProfile::residual / euler_lagrange_equation)
+                            if spec_kind == 0 && bad == 0 {
+                                if let Some(rn) = independent_residual(p) {
+                                    out.count("oracle.independent_residual", 1);
+                                    out.max("independent_residual_over_tol", rn / tol);
+                                    if !(rn <= tol * (1.0 + 1e-3)) {
+                                        out.violate(
+                                            "independent-residual-above-tolerance",
+                                            "residual-independent",
+                                            format!("{}: solve reported success, Euler-Lagrange residual assembled from the functional derivative is {rn:e} > tolerance {tol:e} (chain {chain:?})", what(i)),
+                                        );
+                                    }
+                                }
                             }
                             // S5: specification
                             match spec_kind {
@@ -858,4 +889,38 @@ pub fn debug_replay(path: &str) {
     println!("max |rho - rho_ref| = {d:e}; max rho_ref = {:e}", r.profile().density.to_reduced().iter().cloned().fold(0.0, f64::max));
     let res = o.solve(None, false);
     println!("continue with default solver {:?}: obs {:?}", res.is_ok(), o.observable());
+}
+
+
+/// Euler-Lagrange residual norm of a profile assembled outside `euler_lagrange_equation`:
+/// rho_projected = rho_b exp(-(dF/drho + V_ext - dF/drho_b)/m) * bonds, where the bulk functional
+/// derivative is taken from a uniform periodic profile at the bulk state.
+fn independent_residual<F: feos_dft::HelmholtzEnergyFunctional>(p: &feos_dft::DFTProfile<ndarray::Ix1, F>) -> Option<f64> {
+    use feos_dft::{Axis, DFTProfile, Grid};
+    let t = p.temperature.to_reduced();
+    let rho = p.density.to_reduced();
+    let mut df = p.functional_derivative().ok()?;
+    df += &p.external_potential;
+    let uni = DFTProfile::<ndarray::Ix1, F>::new(Grid::Cartesian1(Axis::new_cartesian(64, 60.0 * quantity::ANGSTROM, None)), &p.bulk, None, None, None);
+    let dfb = uni.functional_derivative().ok()?;
+    let m = p.dft.m();
+    for (s, mut row) in df.outer_iter_mut().enumerate() {
+        let b = dfb[[s, 32]];
+        let ms = m[s];
+        row.mapv_inplace(|x| (x - b) / ms);
+    }
+    let e = df.mapv(|x| (-x).exp());
+    let bonds = p.dft.bond_integrals(t, &e, &p.convolver);
+    let mut proj = &e * &bonds;
+    let pd = p.bulk.partial_density.to_reduced();
+    let ci = p.dft.component_index();
+    for (s, mut row) in proj.outer_iter_mut().enumerate() {
+        row *= pd[ci[s]];
+    }
+    // normalised like the solver's criterion (grid points plus one bulk unknown per segment, whose
+    // residual is zero for the default specification)
+    let n = (rho.len() + ci.len()) as f64;
+    let ss: f64 = rho.iter().zip(proj.iter()).map(|(a, b)| (a - b) * (a - b)).sum();
+    let r = (ss / n).sqrt();
+    r.is_finite().then_some(r)
 }
